@@ -687,6 +687,7 @@ func (t *State) Walk(blockid []byte, ledgerPrune bool) error {
 	xTimer.Mark("walk_todo_block")
 
 	// 异步回放被回滚未确认交易
+	verifHook("walk_recover_start")
 	go t.recoverUnconfirmedTx(undoList)
 
 	t.log.Info("utxo walk finish", "dest_block", hex.EncodeToString(blockid),
